@@ -4,13 +4,16 @@ package c09
 
 import (
 	"bytes"
+	"crypto/rand"
 	"crypto/sha256"
+	"encoding/asn1"
 	"fmt"
 	"sort"
 	"strings"
 	"time"
 
 	"github.com/IBM/TSS/mpc/bls"
+	math "github.com/IBM/mathlib"
 	"verif/cryptolib"
 	"verif/explore"
 	"verif/harness"
@@ -342,4 +345,109 @@ func concurrentBLSCases() []harness.Case {
 		}
 		e.Explore(nil, nil, 1)
 	}}}
+}
+
+// blsLargeQuorumCase: quorums beyond what a full DKG affords. The shares are dealt with the
+// library's own SSS (as a DKG party does), partial signatures are H(digest)^share, and the catalogue
+// is reduced to: the genuine quorum is accepted (ascending, descending, strided subsets), one
+// altered share / one share under another signer's index / fewer than t shares are rejected.
+func blsLargeQuorumCase(n, t int) harness.Case {
+	return harness.Case{ID: fmt.Sprintf("bls/large-quorum/n%dt%d", n, t), Run: func(c *harness.C) {
+		what := fmt.Sprintf("bls n=%d t=%d (dealt)", n, t)
+		c.Exec("[bls-large] " + what)
+		sss := &bls.SSS{Threshold: t}
+		poly, shares := sss.Gen(n, rand.Reader)
+		var pp bls.PublicParams
+		for i := 1; i <= n; i++ {
+			pp.Parties = append(pp.Parties, i)
+		}
+		pp.ThresholdPK = cv.GenG2.Mul(poly[0]).Bytes()
+		raw, err := asn1.Marshal(pp)
+		if err != nil {
+			panic(err)
+		}
+		var v bls.Verifier
+		if err := v.Init(raw); err != nil {
+			c.Violation("setup", "c09-setup", err.Error(), nil)
+			return
+		}
+		d := sha256.Sum256([]byte("c09-large"))
+		digest := d[:]
+		H := cv.HashToG1(digest)
+		subsets := [][]int{}
+		first, last, strided := []int{}, []int{}, []int{}
+		for i := 1; i <= t; i++ {
+			first = append(first, i)
+			last = append(last, n-t+i)
+		}
+		for i := 0; i < t; i++ {
+			strided = append(strided, 1+(i*n)/t)
+		}
+		subsets = append(subsets, first, last, strided)
+		verdict := func(sub []int, alter func(i int, sig *math.G1, who *uint16)) bool {
+			var sigs [][]byte
+			var who []uint16
+			for k, i := range sub {
+				sg := H.Mul(shares[i-1])
+				w := uint16(i)
+				if alter != nil {
+					alter(k, sg, &w)
+				}
+				sigs = append(sigs, sg.Bytes())
+				who = append(who, w)
+			}
+			defer func() { recover() }()
+			agg, err := v.AggregateSignatures(sigs, who)
+			if err != nil {
+				return false
+			}
+			return v.Verify(digest, agg) == nil
+		}
+		rp := map[string]interface{}{"n": n, "t": t, "dealt": true}
+		for si, sub := range subsets {
+			rev := append([]int(nil), sub...)
+			for i, j := 0, len(rev)-1; i < j; i, j = i+1, j-1 {
+				rev[i], rev[j] = rev[j], rev[i]
+			}
+			for _, s := range [][]int{sub, rev} {
+				c.Add("evaluations", 1)
+				if !verdict(s, nil) {
+					c.Violation("genuine-is-accepted", "c09-bls-rejects-genuine:large-quorum", fmt.Sprintf("%s: %d genuine shares combined under their own signer indices (subset no. %d, first index %d) are rejected", what, t, si, s[0]), rp)
+					return
+				}
+			}
+			c.Add("evaluations", 3)
+			if verdict(sub, func(k int, sig *math.G1, _ *uint16) {
+				if k == t/2 {
+					sig.Add(cv.GenG1)
+				}
+			}) {
+				c.Violation("altered-is-rejected", "c09-bls-accepts:large-quorum:share-altered", fmt.Sprintf("%s: a quorum with one altered share verifies", what), rp)
+			}
+			if verdict(sub, func(k int, _ *math.G1, who *uint16) {
+				if k == 0 {
+					// the first share under an index that is not in the subset
+					for cand := 1; cand <= n; cand++ {
+						used := false
+						for _, x := range sub {
+							if x == cand {
+								used = true
+							}
+						}
+						if !used {
+							*who = uint16(cand)
+							return
+						}
+					}
+				}
+			}) && t < n {
+				c.Violation("altered-is-rejected", "c09-bls-accepts:large-quorum:share-under-other-index", fmt.Sprintf("%s: a quorum in which one share is presented under another signer's index verifies", what), rp)
+			}
+			if t >= 2 && verdict(sub[:t-1], nil) {
+				c.Violation("altered-is-rejected", "c09-bls-accepts:large-quorum:fewer-than-t", fmt.Sprintf("%s: %d shares verify", what, t-1), rp)
+			}
+			c.Outcome(fmt.Sprintf("bls-large|%d|%d|%d", n, t, si))
+		}
+		c.Add("executions", 1)
+	}}
 }
